@@ -21,6 +21,7 @@ structure TAcc where
   mn : Nat := 0
   spawns : Nat := 0              -- threads created by execute(), as counted by the harness
   mdiv : List String := []       -- model-internal (policy) divergences: spawn rule, voluntary-exit rule
+  nest : List (Nat × TaskH) := []  -- tasks submitted by task bodies / callbacks: (raw number - 2048, record)
 
 def fail (a : TAcc) (m : String) : TAcc := { a with err := some s!"op#{a.nops} {m}" }
 
@@ -60,11 +61,27 @@ partial def takeHammer (a : TAcc) : TAcc :=
       let a2 := takeStat a' l none
       if a2.err.isSome then a2 else takeHammer a2
 
+/-- at `P fin`: the tasks submitted by bodies / callbacks (raw numbers 2048+j) are appended to the task table and
+every event that names one of them is renumbered -/
+def finalizeNested (a : TAcc) : TAcc :=
+  let base := a.h.tasks.size
+  let n := a.nest.length
+  let sorted := (List.range n).filterMap fun j => (a.nest.find? (·.1 == j)).map (·.2)
+  if sorted.length != n then fail a "nested task numbers are not contiguous" else
+  let rn (k : Nat) : Nat := if k ≥ 2048 then base + (k - 2048) else k
+  let h := a.h
+  { a with h := { h with
+      tasks := h.tasks ++ sorted.toArray,
+      bodies := h.bodies.map fun b => { b with k := rn b.k },
+      cbs := h.cbs.map fun c => { c with k := rn c.k },
+      queries := h.queries.map fun q => { q with k := rn q.k },
+      extra := h.extra.map rn } }
+
 partial def takeEvents (a : TAcc) : TAcc :=
   match nextLine a with
   | (none, _) => fail a "implementation output ends before `P fin` (crash / timeout)"
   | (some l, a') =>
-    if l == "P fin" then { a' with fin := true }
+    if l == "P fin" then finalizeNested { a' with fin := true }
     else match words l with
     | ["E", "body", k, thr, s, e] =>
       match k.toNat?, thr.toNat?, s.toNat?, e.toNat? with
@@ -76,6 +93,38 @@ partial def takeEvents (a : TAcc) : TAcc :=
       | some k, some thr, some q =>
         takeEvents { a' with h := { a'.h with cbs := a'.h.cbs.push { k := k, thr := thr, q := q } } }
       | _, _, _ => fail a s!"unparsable [{l}]"
+    | ["N", "exec", k, _, _, prio, cb, qb, qa] =>
+      match k.toNat?, intOfString? prio, qb.toNat?, qa.toNat? with
+      | some k, some p, some qb, some qa =>
+        if k < 2048 then fail a s!"nested task numbered below 2048 [{l}]" else
+        let lvl := if a'.h.isPool then levelOf p else 2
+        takeEvents { a' with nest := (k - 2048, { lvl := lvl, cb := cb == "1", qb := qb, qa := qa }) :: a'.nest,
+                             tags := "nested-exec" :: a'.tags }
+      | _, _, _, _ => fail a s!"unparsable [{l}]"
+    | ["N", "execnull", _, _, qb, qa] =>
+      match qb.toNat?, qa.toNat? with
+      | some qb, some qa => takeEvents { a' with h := { a'.h with nestedNull := (qb, qa) :: a'.h.nestedNull } }
+      | _, _ => fail a s!"unparsable [{l}]"
+    | ["N", "stat", k, x, thr, qb, qa] =>
+      match k.toNat?, parseAns x, qb.toNat?, qa.toNat? with
+      | some k, some x, some qb, some qa =>
+        takeEvents { a' with h := { a'.h with queries := a'.h.queries.push { k := k, a := x, qb := qb, qa := qa } },
+                             tags := (if thr == "0" then "callback-query" else "worker-query") :: a'.tags }
+      | _, _, _, _ => fail a s!"unparsable [{l}]"
+    | ["N", "cancel", k, r, thr, qb, qa] =>
+      match k.toNat?, r.toNat?, qb.toNat?, qa.toNat? with
+      | some k, some r, some qb, some qa =>
+        let q : Option Query :=
+          if r == 0 then some { k := k, a := .w, cancelOk := true, isCancel := true, qb := qb, qa := qa }
+          else if r == 1 then some { k := k, a := .n, isCancel := true, qb := qb, qa := qa }
+          else if r == 2 then some { k := k, a := .e, isCancel := true, qb := qb, qa := qa }
+          else if r == 3 && !a'.h.isPool then some { k := k, a := .n, isCancel := true, qb := qb, qa := qa }
+          else none
+        match q with
+        | some q => takeEvents { a' with h := { a'.h with queries := a'.h.queries.push q },
+                                         tags := (if thr == "0" then "callback-cancel" else "worker-cancel") :: a'.tags }
+        | none => fail a s!"cancel returned {r} [{l}]"
+      | _, _, _, _ => fail a s!"unparsable [{l}]"
     | ["W", i, ws, we] =>
       match i.toNat?, ws.toNat?, we.toNat? with
       | some i, some ws, some we =>
@@ -120,6 +169,28 @@ def takeSpawn (a : TAcc) : TAcc :=
       else a'
     | _ => fail a s!"impl=[{l}] expected a spawn record"
 
+def boundedNat0 (s : String) (hi : Nat) : Option Nat := do
+  let n ← s.toNat?
+  if n ≤ hi then some n else none
+
+/-- mirrors `parse_script` of the harness; returns the number of actions -/
+def scriptOk (w : String) (ntasks : Nat) : Bool :=
+  if w == "-" then true else
+  let items := w.splitOn ","
+  items.length ≥ 1 && items.length ≤ 6 && items.all fun it =>
+    if it == "S" || it == "C" then true
+    else match it.toList with
+      | 's' :: rest | 'c' :: rest =>
+        (match (String.ofList rest).toNat? with | some k => !rest.isEmpty && decide (k < ntasks) | none => false)
+      | 'x' :: rest =>
+        it.length ≥ 6 &&
+        (match (String.ofList rest).splitOn ":" with
+         | [p, c, d] =>
+           (match intOfString? p with | some p => decide (-100 ≤ p) && decide (p ≤ 100) | none => false) &&
+           (c == "0" || c == "1") && (boundedNat0 d 20000).isSome
+         | _ => false)
+      | _ => false
+
 def boundedNat (s : String) (hi : Nat) : Option Nat := do
   let n ← s.toNat?
   if n ≤ hi then some n else none
@@ -140,10 +211,14 @@ def stepOp1 (a : TAcc) (line : String) : TAcc :=
                 h := { a1.h with isPool := isPool, max := if isPool then mx else 1 },
                 tags := (if isPool then (if mn == mx then "pool-fixed" else if mn == 0 then "pool-min0" else "pool-elastic") else "workthread") :: a1.tags }
     | _, _, _, _ => bad
-  | ["exec", prio, cb, dur] =>
+  | "exec" :: prio :: cb :: dur :: [] | "execs" :: prio :: cb :: dur :: _ :: _ :: [] =>
+    let ws := words line
+    let scriptsOk := ws.length == 4 ||
+      (scriptOk (ws.getD 4 "") a.h.tasks.size && scriptOk (ws.getD 5 "") a.h.tasks.size && (cb == "1" || ws.getD 5 "" == "-"))
     match intOfString? prio, boundedNat dur 20000 with
     | some p, some _ =>
-      if !(cb == "0" || cb == "1") || p < -100 || p > 100 || !a.configured || a.h.tasks.size ≥ 4096 then bad else
+      if !(cb == "0" || cb == "1") || p < -100 || p > 100 || !a.configured || a.h.tasks.size ≥ 2048 || a.fin || !scriptsOk then bad else
+      let a := if ws.length == 6 then { a with tags := "reentrant" :: a.tags } else a
       match nextLine a with
       | (none, _) => fail a "implementation output ends at exec (crash / timeout)"
       | (some l, a') =>
@@ -271,7 +346,7 @@ def stepOp (a : TAcc) (line : String) : TAcc :=
   | ["offloop", n, dur] =>
     match boundedNat n 64, boundedNat dur 20000 with
     | some n, some _ =>
-      if n == 0 || !a.configured || a.h.tasks.size + n ≥ 4096 then expectExact { a with nops := a.nops + 1 } "bad-op" else
+      if n == 0 || !a.configured || a.h.tasks.size + n ≥ 2048 || a.fin then expectExact { a with nops := a.nops + 1 } "bad-op" else
       let a1 := (List.range n).foldl (fun acc _ => { stepOp1 acc s!"exec 0 1 {dur}" with nops := acc.nops }) { a with nops := a.nops + 1 }
       if a1.err.isSome then a1 else
       (match nextLine a1 with
@@ -306,7 +381,7 @@ def finish (d : DS) : List String :=
         | .ok n =>
           -- thread accounting: threads created = min (or 1 for WorkThread) + spawns
           let expectW := (if a.h.isPool then (if a.configured && (Cfg.ok { min := a.mn, max := a.h.max }) then a.mn else 0) else 1) + a.spawns
-          let md := a.mdiv ++ (if a.configured && a.h.workers.size != expectW then
+          let md := a.mdiv ++ (if a.configured && a.nest.isEmpty && a.h.workers.size != expectW then
             [s!"thread accounting: {a.h.workers.size} worker threads were created, expected min + spawns = {expectW}"] else [])
           let tags := tags0 ++ (if n > 0 then ["order-checked"] else []) ++ (if md.isEmpty then [] else ["m-divergence"])
           md.map (fun m => "mdiv " ++ m) ++
